@@ -299,6 +299,19 @@ pub fn render_glif(g: &Glyph, format: u8, s: &mut Surf, variant: &str) -> Vec<u8
         if let Some(c) = &im.color {
             a.push(kv("color", col_str(c)));
         }
+        let (t, d) = (&im.transform, norad::AffineTransform::default());
+        for (k, v, dv) in [
+            ("xScale", t.x_scale, d.x_scale),
+            ("xyScale", t.xy_scale, d.xy_scale),
+            ("yxScale", t.yx_scale, d.yx_scale),
+            ("yScale", t.y_scale, d.y_scale),
+            ("xOffset", t.x_offset, d.x_offset),
+            ("yOffset", t.y_offset, d.y_offset),
+        ] {
+            if v != dv || s.r.chance(1, 5) {
+                a.push(kv(k, s.num(v)));
+            }
+        }
         parts.push(s.tag("image", &a, true));
     }
     let mut gl = String::new();
